@@ -175,6 +175,8 @@ class PathInfo:
 
 
 def explore(ctx, info, world, func, fault=False, max_while=2):
+    budget = (2 if ctx.tier == "thorough" else 1) if fault else 0
+
     def run(it, w):
         it.MAX_WHILE = 1 if fault else max_while
         if fault:
@@ -182,7 +184,7 @@ def explore(ctx, info, world, func, fault=False, max_while=2):
         r = w["robot"]
         return it.call(it.getattr(r, func), [], {})
 
-    paths = fn.all_paths(ctx, run, hooks=lambda: robot.RobotHooks(info, 1 if fault else 0), world=world, max_paths=300000)
+    paths = fn.all_paths(ctx, run, hooks=lambda: robot.RobotHooks(info, budget), world=world, max_paths=600000)
     sites = mode_loop_sites([p.trace for p in paths])
     return [PathInfo(p, func, sites) for p in paths]
 
@@ -628,20 +630,23 @@ def fault_skeleton_check(ctx, res, keep, rule, what):
             continue  # judged by C07.O2
         fk = faulted_key(pi)
         exp, complete = expected_sequence(pi, w, per)
-        if fk is not None and fk[0] == "fbget":
-            # the raising getter suppresses its own setter in that iteration (and only that one)
-            nth = 0
-            for t in pi.tokens:
-                if t[0] == "fault":
-                    break
-                if key(t) == fk:
-                    nth += 1
-            seen_n = 0
+        # every raising getter suppresses its own setter in that iteration (and only that one)
+        prev = None
+        counts = {}
+        drop = set()
+        for t in pi.tokens:
+            if t[0] == "cb":
+                prev = key(t)
+                counts[prev] = counts.get(prev, 0) + 1
+            elif t[0] == "fault" and prev is not None and prev[0] == "fbget":
+                drop.add((prev[1], counts[prev]))
+        if drop:
+            seen_n = {}
             exp2 = []
             for k in exp:
-                if k == ("set", fk[1]):
-                    seen_n += 1
-                    if seen_n == nth:
+                if k is not None and k[0] == "set":
+                    seen_n[k[1]] = seen_n.get(k[1], 0) + 1
+                    if (k[1], seen_n[k[1]]) in drop:
                         continue
                 exp2.append(k)
             exp = exp2
